@@ -118,7 +118,7 @@ prims.EXT_CLASSES.add('io.BytesIO')
 
 class TryToResolveBody(Spec):
     func = MOD + ':tryToResolveConflict'
-    props = ('C10',)
+    props = ('C10', 'C03')
     cases = ('committed-data-given', 'committed-data-empty')
     assumptions = tuple(ASSUMPTIONS)
     callable_contract = False      # call sites use the storage-level contract in fs_write / demostorage
